@@ -344,9 +344,11 @@ def r13_2_reconcile_dominates(ctx, rule: str = 'R13.2', only_modules: Optional[S
             if isinstance(n, ast.Assign) and isinstance(n.targets[0], ast.Subscript) and \
                     isinstance(n.targets[0].slice, ast.Constant) and n.targets[0].slice.value == 'Reconcile' and \
                     isinstance(n.value, ast.Constant) and n.value.value is False:
-                t = f"{f.name}: kwargs['Reconcile'] = False is set only inside the Reconcile prologue (after reconciling)"
+                t = f"{f.name}: kwargs['Reconcile'] = False is set only inside the Reconcile prologue (after reconciling) or unconditionally behind it"
                 inside = pr is not None and any(x is n for s_ in pr['node'].body for x in ast.walk(s_))
-                if inside:
+                # ... or unconditionally behind it: where the prologue was skipped the keyword already was false
+                behind = pr is not None and pr['ok'] and any(s_ is n for s_ in f.node.body[pr['index'] + 1:])
+                if inside or behind:
                     obs.append(ok(rule, t, f.loc(n), construct=f"{_fn(f)}::kwargs-Reconcile"))
                 else:
                     obs.append(violation(rule, t, f.loc(n), key=f"{_fn(f)}::kwargs-Reconcile-outside-prologue"))
